@@ -112,6 +112,7 @@ func UndoConfig(serializer, compress string, dataValidation, onlyCareUpdateColum
 // ResetCase forgets the journals and coordinator state before a case.
 func (e *Env) ResetCase() {
 	e.Srv.ClearFaults()
+	e.Srv.KillOpenTransactions()
 	e.Srv.ResetJournal()
 	e.TC.Reset()
 	tm.InitTm(tm.TmConfig{CommitRetryCount: 1, RollbackRetryCount: 1, DefaultGlobalTransactionTimeout: 60 * time.Second})
@@ -144,3 +145,179 @@ func Global(name string, f func(ctx context.Context) error) (xid string, err err
 
 // TableName builds a per-case table name.
 func TableName(caseNo int64, i int) string { return fmt.Sprintf("c%d_t%d", caseNo, i) }
+
+// ---- scenario runner -------------------------------------------------------------------------
+
+// StmtResult is what the caller of one statement observed.
+type StmtResult struct {
+	Affected int64    `json:"affected"`
+	LastID   int64    `json:"last_id"`
+	Err      string   `json:"err,omitempty"`
+	Rows     []string `json:"rows,omitempty"`
+}
+
+// BranchResult is what the caller of one local transaction observed.
+type BranchResult struct {
+	Stmts      []StmtResult `json:"stmts"`
+	BeginErr   string       `json:"begin_err,omitempty"`
+	CommitErr  string       `json:"commit_err,omitempty"`
+	RolledBack bool         `json:"rolled_back,omitempty"`
+}
+
+// Failed reports whether anything in the branch returned an error.
+func (b BranchResult) Failed() bool {
+	if b.BeginErr != "" || b.CommitErr != "" {
+		return true
+	}
+	for _, s := range b.Stmts {
+		if s.Err != "" {
+			return true
+		}
+	}
+	return false
+}
+
+// FirstErr returns the first error text of the branch.
+func (b BranchResult) FirstErr() string {
+	if b.BeginErr != "" {
+		return b.BeginErr
+	}
+	for _, s := range b.Stmts {
+		if s.Err != "" {
+			return s.Err
+		}
+	}
+	return b.CommitErr
+}
+
+type execer interface {
+	ExecContext(ctx context.Context, q string, args ...interface{}) (sql.Result, error)
+	QueryContext(ctx context.Context, q string, args ...interface{}) (*sql.Rows, error)
+	PrepareContext(ctx context.Context, q string) (*sql.Stmt, error)
+}
+
+func runStmt(ctx context.Context, x execer, q string, args []interface{}, prepared, isQuery bool) (r StmtResult) {
+	defer func() {
+		// a panic inside the driver stack surfaces to the application as a crash of the call
+		if p := recover(); p != nil {
+			r.Err = fmt.Sprintf("PANIC: %v", p)
+		}
+	}()
+	if isQuery {
+		var rows *sql.Rows
+		var err error
+		if prepared {
+			var st *sql.Stmt
+			if st, err = x.PrepareContext(ctx, q); err == nil {
+				defer st.Close()
+				rows, err = st.QueryContext(ctx, args...)
+			}
+		} else {
+			rows, err = x.QueryContext(ctx, q, args...)
+		}
+		if err != nil {
+			r.Err = err.Error()
+			return r
+		}
+		defer rows.Close()
+		cols, _ := rows.Columns()
+		for rows.Next() {
+			vals := make([]interface{}, len(cols))
+			ptrs := make([]interface{}, len(cols))
+			for i := range vals {
+				ptrs[i] = &vals[i]
+			}
+			if err := rows.Scan(ptrs...); err != nil {
+				r.Err = err.Error()
+				return r
+			}
+			s := ""
+			for i, v := range vals {
+				s += fmt.Sprintf("%s=%s ", cols[i], memsql.RenderValue(normScan(v)))
+			}
+			r.Rows = append(r.Rows, s)
+		}
+		if err := rows.Err(); err != nil {
+			r.Err = err.Error()
+		}
+		return r
+	}
+	var res sql.Result
+	var err error
+	if prepared {
+		var st *sql.Stmt
+		if st, err = x.PrepareContext(ctx, q); err == nil {
+			defer st.Close()
+			res, err = st.ExecContext(ctx, args...)
+		}
+	} else {
+		res, err = x.ExecContext(ctx, q, args...)
+	}
+	if err != nil {
+		r.Err = err.Error()
+		return r
+	}
+	r.Affected, _ = res.RowsAffected()
+	r.LastID, _ = res.LastInsertId()
+	return r
+}
+
+func normScan(v interface{}) interface{} {
+	if b, ok := v.([]byte); ok {
+		return string(b)
+	}
+	return v
+}
+
+// RunBranch executes one branch the way a correct caller would: an explicit transaction is rolled
+// back on the first statement error.
+func RunBranch(ctx context.Context, db *sql.DB, mode, via string, prepared bool, stmts []StmtText) BranchResult {
+	var out BranchResult
+	var x execer = db
+	if via == "conn" {
+		c, err := db.Conn(ctx)
+		if err != nil {
+			out.BeginErr = err.Error()
+			return out
+		}
+		defer c.Close()
+		x = c
+	}
+	if mode != "tx" {
+		for _, s := range stmts {
+			out.Stmts = append(out.Stmts, runStmt(ctx, x, s.SQL, s.Args, prepared, s.Query))
+		}
+		return out
+	}
+	var tx *sql.Tx
+	var err error
+	if c, ok := x.(*sql.Conn); ok {
+		tx, err = c.BeginTx(ctx, nil)
+	} else {
+		tx, err = db.BeginTx(ctx, nil)
+	}
+	if err != nil {
+		out.BeginErr = err.Error()
+		return out
+	}
+	for _, s := range stmts {
+		r := runStmt(ctx, tx, s.SQL, s.Args, prepared, s.Query)
+		out.Stmts = append(out.Stmts, r)
+		if r.Err != "" {
+			_ = tx.Rollback()
+			out.RolledBack = true
+			return out
+		}
+	}
+	if err := tx.Commit(); err != nil {
+		out.CommitErr = err.Error()
+	}
+	return out
+}
+
+// StmtText is a statement ready to run.
+type StmtText struct {
+	SQL   string
+	Args  []interface{}
+	Query bool
+}
